@@ -2832,7 +2832,11 @@ class MSDDLCompiler(compiler.DDLCompiler):
 
     def visit_set_table_comment(self, create, **kw):
         schema = self.preparer.schema_for_object(create.element)
-        schema_name = schema if schema else self.dialect.default_schema_name
+        schema_name = (
+            schema
+            or self.dialect.default_schema_name
+            or self.dialect.schema_name
+        )
         return (
             "execute sp_addextendedproperty 'MS_Description', "
             "{}, 'schema', {}, 'table', {}".format(
@@ -2846,7 +2850,11 @@ class MSDDLCompiler(compiler.DDLCompiler):
 
     def visit_drop_table_comment(self, drop, **kw):
         schema = self.preparer.schema_for_object(drop.element)
-        schema_name = schema if schema else self.dialect.default_schema_name
+        schema_name = (
+            schema
+            or self.dialect.default_schema_name
+            or self.dialect.schema_name
+        )
         return (
             "execute sp_dropextendedproperty 'MS_Description', 'schema', "
             "{}, 'table', {}".format(
@@ -2857,7 +2865,11 @@ class MSDDLCompiler(compiler.DDLCompiler):
 
     def visit_set_column_comment(self, create, **kw):
         schema = self.preparer.schema_for_object(create.element.table)
-        schema_name = schema if schema else self.dialect.default_schema_name
+        schema_name = (
+            schema
+            or self.dialect.default_schema_name
+            or self.dialect.schema_name
+        )
         return (
             "execute sp_addextendedproperty 'MS_Description', "
             "{}, 'schema', {}, 'table', {}, 'column', {}".format(
@@ -2874,7 +2886,11 @@ class MSDDLCompiler(compiler.DDLCompiler):
 
     def visit_drop_column_comment(self, drop, **kw):
         schema = self.preparer.schema_for_object(drop.element.table)
-        schema_name = schema if schema else self.dialect.default_schema_name
+        schema_name = (
+            schema
+            or self.dialect.default_schema_name
+            or self.dialect.schema_name
+        )
         return (
             "execute sp_dropextendedproperty 'MS_Description', 'schema', "
             "{}, 'table', {}, 'column', {}".format(
